@@ -573,6 +573,9 @@ func (c *Ctx) TRVCount(rule string) []report.Obligation {
 		}
 	}
 	if cell == nil {
+		if obs := c.trvCountDelegated(rule, walk, co); obs != nil {
+			return obs
+		}
 		return []report.Obligation{bad(rule, "walk$coordinator :: counter", c.P.Pos(co.Pos()), "the coordinator does not update a captured integer counter")}
 	}
 	okDec := len(decs) == 1
@@ -732,4 +735,218 @@ func (c *Ctx) trvRoles() *trvRoleNames {
 		}
 	}
 	return r
+}
+
+// trvCountDelegated: the coordinator closure hands its work to a function of the package and passes the number of
+// vertices as an argument; the counter is then that function's parameter, carried round its loop.
+func (c *Ctx) trvCountDelegated(rule string, walk, co *ssa.Function) []report.Obligation {
+	var out []report.Obligation
+	var g *ssa.Function
+	var arg ssa.Value
+	var param *ssa.Parameter
+	for _, cs := range callSites(co, func(com *ssa.CallCommon) bool {
+		cal := com.StaticCallee()
+		return cal != nil && c.P.InModule(cal) && cal.Blocks != nil
+	}) {
+		cal := cs.Common().StaticCallee()
+		for i, a := range cs.Common().Args {
+			if isIntType(a.Type()) && i < len(cal.Params) {
+				g, arg, param = cal, a, cal.Params[i]
+			}
+		}
+	}
+	if g == nil {
+		return nil
+	}
+	// the loop-carried counter: phi(param, phi - 1)
+	var ph *ssa.Phi
+	var dec *ssa.BinOp
+	for _, b := range g.Blocks {
+		for _, in := range b.Instrs {
+			x, ok := in.(*ssa.Phi)
+			if !ok || !isIntType(x.Type()) {
+				continue
+			}
+			fromParam := false
+			var d *ssa.BinOp
+			nOther := 0
+			for _, e := range x.Edges {
+				switch {
+				case e == ssa.Value(param):
+					fromParam = true
+				case e == ssa.Value(x):
+				default:
+					if bo, isB := e.(*ssa.BinOp); isB && bo.Op == token.SUB && bo.X == ssa.Value(x) {
+						if k, isC := constInt(bo.Y); isC && k == 1 {
+							d = bo
+							continue
+						}
+					}
+					nOther++
+				}
+			}
+			if fromParam && d != nil && nOther == 0 {
+				ph, dec = x, d
+			}
+		}
+	}
+	if ph == nil {
+		return nil
+	}
+	inRecv := false
+	for _, d := range prog.Info(g).TransitiveControlDeps(dec.Block()) {
+		if iff, ok := d.Branch.Instrs[len(d.Branch.Instrs)-1].(*ssa.If); ok {
+			if bo, ok := iff.Cond.(*ssa.BinOp); ok {
+				if ex, ok := bo.X.(*ssa.Extract); ok {
+					if _, isSel := ex.Tuple.(*ssa.Select); isSel && ex.Index == 0 {
+						inRecv = true
+					}
+				}
+			}
+		}
+	}
+	out = append(out, verdict(inRecv, rule, "walk$coordinator :: one decrement per received vertex", c.P.Pos(g.Pos()),
+		"the counter parameter of "+c.P.FuncID(g)+" is decremented by exactly 1, once per turn, in the receive arm of the select", "the coordinator's counter is not decremented exactly once per received vertex: it stops early (visits are abandoned) or never (walk hangs)"))
+	zero := false
+	for _, r := range returnsOf(g) {
+		if factHolds(r.Block(), func(cond ssa.Value, val bool) bool {
+			bo, ok := cond.(*ssa.BinOp)
+			if !ok || (bo.X != ssa.Value(dec) && bo.X != ssa.Value(ph)) {
+				return false
+			}
+			k, isC := constInt(bo.Y)
+			if !isC {
+				return false
+			}
+			switch {
+			case val && (bo.Op == token.EQL || bo.Op == token.LEQ) && k == 0, val && bo.Op == token.LSS && k == 1:
+				return true
+			case !val && (bo.Op == token.NEQ || bo.Op == token.GTR) && k == 0, !val && bo.Op == token.GEQ && k == 1:
+				return true
+			}
+			return false
+		}) {
+			zero = true
+		}
+	}
+	out = append(out, verdict(zero, rule, "walk$coordinator :: stops when the counter reaches zero", c.P.Pos(g.Pos()),
+		"a return of "+c.P.FuncID(g)+" lies on the `counter == 0` edge", "the coordinator does not stop when every vertex was handed over"))
+	// the argument is the number of vertices
+	init := false
+	v := arg
+	if ld, ok := v.(*ssa.UnOp); ok && ld.Op == token.MUL {
+		if fv, isFV := ld.X.(*ssa.FreeVar); isFV {
+			if bd, isAl := c.bindingOf(fv).(*ssa.Alloc); isAl {
+				for _, r := range *bd.Referrers() {
+					if st, isSt := r.(*ssa.Store); isSt && st.Addr == ssa.Value(bd) {
+						v = st.Val
+					}
+				}
+			}
+		}
+	}
+	if fv, isFV := v.(*ssa.FreeVar); isFV {
+		v = c.bindingOf(fv)
+	}
+	if call, ok := v.(*ssa.Call); ok && derivedFromLen(v, 3) && len(call.Call.Args) > 0 && loadedField(call.Call.Args[0]) == c.trvRoles().vertices {
+		init = true
+	}
+	out = append(out, verdict(init, rule, "walk :: counter starts at the number of vertices", c.P.Pos(walk.Pos()),
+		"the coordinator is handed len(g.vertices)", "the counter is not initialised with the number of vertices"))
+	return out
+}
+
+// TRVPayload (TRV-9b, C13): a vertex carries a shallow copy of the service it stands for (its maps are the
+// project's maps). Package graph hands that copy to the visitor and otherwise only reads it: no store, map update,
+// delete or append goes through the payload field of a vertex (the field whose declared type is the type parameter
+// of the graph). A "clean-up" of the copy - dropping a dangling depends_on entry - edits the caller's project.
+func (c *Ctx) TRVPayload(rule string) []report.Obligation {
+	var out []report.Obligation
+	n := 0
+	isPayload := func(fa *ssa.FieldAddr) bool {
+		pt, ok := fa.X.Type().Underlying().(*types.Pointer)
+		if !ok {
+			return false
+		}
+		nt, ok := pt.Elem().(*types.Named)
+		if !ok || nt.Obj().Pkg() == nil || c.P.Rel(nt.Obj().Pkg()) != "graph" {
+			return false
+		}
+		ost, ok := nt.Origin().Underlying().(*types.Struct)
+		if !ok || fa.Field >= ost.NumFields() {
+			return false
+		}
+		ft := ost.Field(fa.Field).Type()
+		if p2, isP := ft.(*types.Pointer); isP {
+			ft = p2.Elem()
+		}
+		_, isTP := ft.(*types.TypeParam)
+		return isTP
+	}
+	for _, fn := range c.P.Funcs {
+		if !strings.HasPrefix(c.P.FuncID(fn), "graph.") {
+			continue
+		}
+		derived := map[ssa.Value]bool{}
+		for iter := 0; iter < 6; iter++ {
+			for _, b := range fn.Blocks {
+				for _, in := range b.Instrs {
+					switch x := in.(type) {
+					case *ssa.FieldAddr:
+						if isPayload(x) || derived[x.X] {
+							derived[x] = true
+						}
+					case *ssa.UnOp:
+						if x.Op == token.MUL && derived[x.X] {
+							derived[x] = true
+						}
+					case *ssa.IndexAddr:
+						if derived[x.X] {
+							derived[x] = true
+						}
+					case *ssa.Lookup:
+						if derived[x.X] {
+							derived[x] = true
+						}
+					case *ssa.Extract:
+						if derived[x.Tuple] {
+							derived[x] = true
+						}
+					}
+				}
+			}
+		}
+		for _, b := range fn.Blocks {
+			for _, in := range b.Instrs {
+				what := ""
+				switch x := in.(type) {
+				case *ssa.Store:
+					if fa, ok := x.Addr.(*ssa.FieldAddr); ok && isPayload(fa) {
+						continue // installing the payload itself
+					}
+					if derived[x.Addr] {
+						what = "store"
+					}
+				case *ssa.MapUpdate:
+					if derived[x.Map] {
+						what = "map update"
+					}
+				case ssa.CallInstruction:
+					if bi, ok := x.Common().Value.(*ssa.Builtin); ok && len(x.Common().Args) > 0 && derived[x.Common().Args[0]] {
+						switch bi.Name() {
+						case "delete", "append", "copy", "clear":
+							what = bi.Name()
+						}
+					}
+				}
+				if what != "" {
+					n++
+					out = append(out, bad(rule, c.P.FuncID(fn)+" :: "+what+" through the service a vertex carries", c.P.InstrPos(in),
+						"the vertex holds a shallow copy of the project's service: its maps and slices are the project's, so this "+what+" modifies the project the caller handed in"))
+				}
+			}
+		}
+	}
+	out = append(out, report.Obligation{Rule: rule, Key: "graph :: the service carried by a vertex is only read and handed to the visitor", Status: report.Discharged, Why: fmt.Sprintf("%d writes through a vertex payload found", n)})
+	return out
 }
